@@ -12,7 +12,10 @@ RULE = ("gpio.Peripheral built through its constructor: pins 1-9 (some 10-17; th
         "writes of Mode/Input/Output/SetClr incl. padding chunks, aborted ones, idle gaps, interleaved foreign accesses, "
         "per-pin distinct data, sticky random pin waveforms), every input bit random each cycle, or an exhaustive sweep "
         "of mode x output x set/clear code for 1-2 pins; plus the Output register (Peripheral.Output) on its own with free "
-        "set/clr inputs (set/clear together with a register write); non-trivial = accepted configuration with >= 2 pins, "
+        "set/clr inputs (set/clear together with a register write); ~30% of the txn/random/outreg cases get 1-3 mid-run "
+        "synchronous resets (between the chunks of a write, in / one / two cycles after a last chunk, in a first-chunk "
+        "read cycle, pin levels held high through it, an Input read right after it: Mode/Output fall back to 0, the "
+        "reset_less synchroniser stages keep their samples); non-trivial = accepted configuration with >= 2 pins, "
         ">= 1 completed Mode write, >= 1 completed SetClr write and >= 1 protocol-following Input read (Output register "
         "alone: >= 2 pins and >= 1 cycle with a write and an effective set/clear together)")
 
@@ -238,7 +241,64 @@ def gen_outreg(rnd, tier):
         st = sum((rnd.random() < dens) << k for k in range(pins))
         cl = sum((rnd.random() < dens) << k for k in range(pins))
         stim.append([int(rnd.random() < 0.5), rnd.getrandbits(pins), st, cl])
-    return {"engine": "gpio", "kind": "outreg", "cfg": {"pins": pins, "outreg": 1}, "stim": stim}
+    case = {"engine": "gpio", "kind": "outreg", "cfg": {"pins": pins, "outreg": 1}, "stim": stim}
+    if rnd.random() < 0.3:
+        # mid-run synchronous resets of the register on its own: mostly in a cycle that also writes / sets bits
+        # (the reset must win over both), after the fields have been loaded
+        rs = sorted(rnd.sample(range(3, T - 3), rnd.choice([1, 1, 2, 3])))
+        for r in rs:
+            if rnd.random() < 0.7:
+                stim[r - 1] = [1, (1 << pins) - 1, 0, 0]                      # all fields 1 going into the reset
+                stim[r] = [rnd.randrange(2), rnd.getrandbits(pins), rnd.getrandbits(pins), 0]
+        case["resets"] = rs
+    return case
+
+
+def gen_resets(rnd, cfg, stim):
+    """1-3 mid-run synchronous resets for a peripheral trace, aimed at what a reset must wipe: between the chunks of
+    a register write (write shadow loaded), in the cycle of a last chunk / one / two cycles after it (element w_stb
+    registered, field storage about to change or just changed), in the cycle of a first-chunk read (read shadow and
+    r_en), or anywhere (Mode/Output usually non-zero by then: the pins must fall back to input-only).  Pin levels are
+    held high through half of the resets, and half of them are followed at once by a whole read of Input: the
+    synchroniser stages are declared reset_less, so the levels sampled before the reset are still what Input reports."""
+    pins, dw, aw = cfg["pins"], cfg["dw"], cfg["aw"]
+    layout = natural_layout(pins, dw)
+    T = len(stim)
+    n_in = layout[1][1] - layout[1][0]
+    lo, hi = 3, T - 4 - n_in
+    if hi <= lo:
+        return []
+    cand = {"mid": [], "last": [], "after1": [], "after2": [], "read": []}
+    for t in range(lo, hi + 1):
+        addr, rs, ws, wd, lv = stim[t]
+        for k, (s0, e0) in enumerate(layout):
+            if ws and WRITABLE[k] and s0 <= addr < e0:
+                if addr < e0 - 1:
+                    cand["mid"].append(t)
+                else:
+                    cand["last"].append(t)
+                    if t + 1 <= hi:
+                        cand["after1"].append(t + 1)
+                    if t + 2 <= hi:
+                        cand["after2"].append(t + 2)
+            if rs and READABLE[k] and addr == s0:
+                cand["read"].append(t)
+    out = set()
+    for _ in range(rnd.choice([1, 1, 2, 3])):
+        what = rnd.choice(["mid", "last", "after1", "after1", "after2", "read", "any"])
+        out.add(rnd.choice(cand.get(what) or list(range(lo, hi + 1))))
+    out = sorted(out)
+    full = (1 << pins) - 1
+    for r in out:
+        if rnd.random() < 0.5:
+            for t in (r - 1, r, r + 1):
+                stim[t][4] = full
+        if rnd.random() < 0.5 and (r + 1) not in out:
+            for j in range(n_in):
+                if (r + 1 + j) in out:
+                    break
+                stim[r + 1 + j][:4] = [(layout[1][0] + j) & ((1 << aw) - 1), 1, 0, rnd.getrandbits(dw)]
+    return out
 
 
 def gen_case(seed, tier, idx):
@@ -258,7 +318,13 @@ def gen_case(seed, tier, idx):
         stim = gen_random(rnd, cfg, T)
     else:
         stim = gen_txn(rnd, cfg, T if kind == "txn" else 40)
-    return {"engine": "gpio", "kind": kind, "cfg": cfg, "stim": stim}
+    case = {"engine": "gpio", "kind": kind, "cfg": cfg, "stim": stim}
+    # mid-run resets: not for refusal / constructor-corner cases, and the exhaustive sweep is left intact
+    if kind in ("txn", "random") and len(stim) > 40 and rnd.random() < 0.3:
+        rs = gen_resets(rnd, cfg, stim)
+        if rs:
+            case["resets"] = rs
+    return case
 
 
 # ----------------------------------------------------------------------------- model / implementation
@@ -268,6 +334,68 @@ def to_model(case):
     if case["kind"] == "outreg":
         return [1, c["pins"], case["stim"]]
     return [[sx_arg(c["pins"]), sx_arg(c["aw"]), sx_arg(c["dw"]), sx_arg(c["stages"])], case["stim"]]
+
+
+def _segments(case):
+    """[(first, last)] cycle ranges; a segment ends with the cycle in which the reset is asserted"""
+    T = len(case["stim"])
+    rs = sorted(set(r for r in case.get("resets", []) if 0 <= r < T - 1))
+    out, a = [], 0
+    for r in rs:
+        out.append((a, r)); a = r + 1
+    out.append((a, T - 1))
+    return out
+
+
+def reset_cycles(case):
+    return [b for (a, b) in _segments(case)[:-1]] if case["stim"] else []
+
+
+def _warmup(case, a):
+    """The input synchroniser stages are declared reset_less in gpio.py: a synchronous reset restores every other
+    register but these keep shifting.  The model (always started from its initial state, stages = 0) is brought to
+    exactly that state by `min(stages, a)` leading cycles without any bus strobe that replay the pin levels of the
+    cycles just before the segment; their output rows are dropped again by model_join."""
+    st = case["cfg"].get("stages", 0)
+    return min(st, a) if isinstance(st, int) and st > 0 and a > 0 else 0
+
+
+def model_cases(case):
+    """A mid-run synchronous reset starts the model again from its initial state: one model run per segment."""
+    full = to_model(case)
+    if not reset_cycles(case):
+        return [full]
+    stim = case["stim"]
+    out = []
+    for (a, b) in _segments(case):
+        if case["kind"] == "outreg":
+            out.append([1, case["cfg"]["pins"], stim[a:b + 1]])
+        else:
+            p = _warmup(case, a)
+            pre = [[row[0], 0, 0, row[3], row[4]] for row in stim[a - p:a]]
+            out.append([full[0], pre + stim[a:b + 1]])
+    return out
+
+
+def model_join(case, results):
+    """Constructor code and register layout come from the first segment; per-cycle rows are concatenated (without the
+    synchroniser warm-up rows)."""
+    first = results[0]
+    if len(results) == 1:
+        return first
+    segs = _segments(case)
+    if case["kind"] == "outreg":
+        if any(not isinstance(r, list) or len(r) != 2 or r[0] != 1 for r in results):
+            return [-99, results]
+        return [1, [row for r in results for row in r[1]]]
+    if not isinstance(first, list) or len(first) != 3 or first[0] != 0:
+        return first
+    rows = []
+    for (a, b), r in zip(segs, results):
+        if not isinstance(r, list) or len(r) != 3 or r[:2] != first[:2]:
+            return [-99, first[:2], r[:2] if isinstance(r, list) else r]
+        rows += r[2][_warmup(case, a):]
+    return [0, first[1], rows]
 
 
 def from_model(res):
@@ -299,7 +427,7 @@ def run_impl(case):
     ins = [dut.bus.addr, dut.bus.r_stb, dut.bus.w_stb, dut.bus.w_data] + [p.i for p in dut.pins]
     outs = [dut.bus.r_data, dut.alt_mode] + [p.o for p in dut.pins] + [p.oe for p in dut.pins]
     stim = [row[:4] + [(row[4] >> k) & 1 for k in range(pins)] for row in case["stim"]]
-    rows = S.simulate(dut, ins, outs, stim) if stim else []
+    rows = S.simulate(dut, ins, outs, stim, reset_at=reset_cycles(case)) if stim else []
     obs = []
     for r in rows:
         obs.append([r[0], r[2:2 + pins], r[2 + pins:2 + 2 * pins], [(r[1] >> k) & 1 for k in range(pins)]])
@@ -316,7 +444,7 @@ def run_outreg(case):
     outs = [reg.element.r_data] + [f.data for f in fields]
     stim = [[w, d] + [(st >> k) & 1 for k in range(pins)] + [(cl >> k) & 1 for k in range(pins)]
             for (w, d, st, cl) in case["stim"]]
-    rows = S.simulate(reg, ins, outs, stim)
+    rows = S.simulate(reg, ins, outs, stim, reset_at=reset_cycles(case))
     return [1, [[r[0], r[1:]] for r in rows]]
 
 
@@ -385,7 +513,7 @@ def oracle(case, obs):
     last_first = {}           # readable register -> (t0, snapshot value, known mask)
     expect_rd = None          # (value, mask, text) expected on bus.r_data in this cycle
     prev_pins_out = None
-    quiet_since_write = None
+    resets = set(reset_cycles(case))
     for t in range(T):
         addr, rs, ws, wd, lv = stim[t]
         r_data, o, oe, alt = tr[t]
@@ -489,6 +617,17 @@ def oracle(case, obs):
                     cw = min(dw, W[kw] - j * dw)
                     val |= (d & ((1 << cw) - 1)) << (j * dw)
             sched[t + 2] = ({0: "mode", 2: "out", 3: "sc"}[kw], val)
+        # ---- synchronous reset asserted in this cycle (its outputs, checked above, are still those of the old state)
+        if t in resets:
+            # after the edge the registers are back at their documented reset value 0 (every pin input-only,
+            # output bits 0), no transaction is open and no write is in flight (a write whose last chunk was just
+            # written never happens), and every pin's outputs may change.  The clause about Input is NOT restarted:
+            # "the pin's level delayed by exactly `stages` cycles" is stated over absolute time, and the
+            # synchroniser stages (reset_less in gpio.py) are what makes it hold across a reset.
+            mode = Abstract(W[0]); outp = Abstract(W[2])
+            sched = {}; last_write = {}; last_first = {}
+            expect_rd = None
+            prev_pins_out = None
         if len(out) > 12:
             break
     return out
@@ -500,13 +639,14 @@ def oracle_outreg(case, obs):
     out = []
     pins = case["cfg"]["pins"]
     rows = obs[1]
+    resets = set(reset_cycles(case))
     for t, (w, d, st, cl) in enumerate(case["stim"]):
         r_data, data = rows[t]
-        if t == 0 and any(data):
-            out.append(("C16", 0, f"Output fields {data} out of reset"))
+        if (t == 0 or (t - 1) in resets) and any(data):
+            out.append(("C16", t, f"Output fields {data} out of reset"))
         if r_data != sum(b << k for k, b in enumerate(data)):
             out.append(("C16", t, f"Output register reads {r_data:#x} while its fields drive {data}"))
-        if t + 1 < len(rows):
+        if t + 1 < len(rows) and t not in resets:
             nxt = rows[t + 1][1]
             for k in range(pins):
                 s_, c_ = (st >> k) & 1, (cl >> k) & 1
@@ -523,7 +663,8 @@ def stats(case, obs):
     d = {"cycles": len(case["stim"]), "refused": int(obs[0] == -2), "completed_writes_Mode": 0,
          "completed_writes_Output": 0, "completed_writes_SetClr": 0, "first_chunk_reads_Input": 0,
          "first_chunk_reads_Mode_Output": 0, "multi_chunk_registers": 0, "read_strobes": 0, "write_strobes": 0,
-         "outreg_setclr_with_write": 0}
+         "outreg_setclr_with_write": 0, "resets": len(reset_cycles(case)), "resets_pins_driven": 0,
+         "resets_write_in_flight": 0, "input_reads_within_stages_of_reset": 0}
     if case["kind"] == "outreg":
         m = (1 << case["cfg"]["pins"]) - 1
         d["outreg_setclr_with_write"] = sum(1 for (w, dd, st, cl) in case["stim"] if w and ((st ^ cl) & m))
@@ -532,6 +673,15 @@ def stats(case, obs):
         return d
     layout = obs[1]
     d["multi_chunk_registers"] = sum(1 for s, e in layout if e - s > 1)
+    stim = case["stim"]
+    stages = case["cfg"]["stages"]
+    for r in reset_cycles(case):
+        _, o, oe, alt = obs[2][r]
+        d["resets_pins_driven"] += int(any(o) or any(oe) or any(alt))
+        lasts = [layout[k][1] - 1 for k in (0, 2, 3)]
+        d["resets_write_in_flight"] += int(any(stim[u][2] and stim[u][0] in lasts for u in (r - 1, r) if u >= 0))
+        d["input_reads_within_stages_of_reset"] += int(any(stim[u][1] and stim[u][0] == layout[1][0]
+                                                           for u in range(r + 1, min(len(stim), r + 1 + max(stages, 1)))))
     for (addr, rs, ws, wd, lv) in case["stim"]:
         d["read_strobes"] += rs; d["write_strobes"] += ws
         if ws:
@@ -560,9 +710,10 @@ def describe(case):
     c = case["cfg"]
     if case["kind"] == "outreg":
         return {"engine": "gpio", "kind": "outreg", "pins": c["pins"], "cycles": len(case["stim"]),
-                "first_cycles": case["stim"][:3]}
+                "resets": case.get("resets", []), "first_cycles": case["stim"][:3]}
     return {"engine": "gpio", "kind": case["kind"], "pins": c["pins"], "aw": c["aw"], "dw": c["dw"],
-            "stages": c["stages"], "cycles": len(case["stim"]), "first_cycles": case["stim"][:3]}
+            "stages": c["stages"], "cycles": len(case["stim"]), "resets": case.get("resets", []),
+            "first_cycles": case["stim"][:3]}
 
 
 def shrink(case, fails):
